@@ -361,10 +361,46 @@ def poly_terms(cases, results):
     return idx, got, want
 
 
+def gen_multi_case(rng, allowed):
+    """ONE ExecComp with 2-3 assignment statements whose right-hand sides share array inputs (and have some
+    inputs of their own): several outputs then live in the same coloured column of _compute_colored_partials.
+    One generic point (no history: the known coloring finding F1 is not the subject here)."""
+    for _ in range(400):
+        nv = rng.choice([2, 3, 3])
+        nexpr = rng.choice([2, 2, 3])
+        trees = [G.gen_tree(rng, rng.randint(1, 2), nv) for _ in range(nexpr)]
+        uses = [sorted(G.vars_used(t)) for t in trees]
+        if any(not u for u in uses) or not all(G.names_used(t) <= allowed for t in trees):
+            continue
+        used = sorted(set().union(*uses))
+        n = rng.choice([3, 4, 5])
+        arr = {i: rng.random() < 0.8 for i in used}
+        shared = [i for i in used if arr[i] and sum(i in u for u in uses) >= 2]
+        if not shared:
+            continue
+        flat = None
+        for _try in range(25):
+            cand = _point(rng, used, arr, n, False)
+            if all(_valid(t, u, cand, n) for t, u in zip(trees, uses)):
+                flat = cand
+                break
+        if flat is None:
+            continue
+        sums = [rng.random() < 0.15 for _ in trees]
+        if all(sums):
+            sums[0] = False
+        return {'multi': True, 'trees': trees, 'sums': sums, 'vars': used, 'n': n,
+                'points': [{'inputs': dict(flat), 'flat': flat}],
+                'config': rng.choice(['default', 'default', 'default', 'default', 'nocolor']), 'tie': False}
+    raise RuntimeError('multi-expression generator failed')
+
+
 def gen(tier, rng, allowed):
-    n_tie, n_oracle = (75, 700) if tier == 'quick' else (600, 8000)
+    n_tie, n_oracle = (75, 600) if tier == 'quick' else (600, 8000)
     n_poly = 150 if tier == 'quick' else 2000
+    n_multi = 200 if tier == 'quick' else 2500
     cases = [gen_poly_case(rng) for _ in range(n_poly)]
+    cases += [gen_multi_case(rng, allowed) for _ in range(n_multi)]
     for i in range(n_tie + n_oracle):
         c = gen_case(rng, tier, allowed)
         c['tie'] = i < n_tie
@@ -497,7 +533,8 @@ def main(tier):
     v.cov['rule'] = ('random well-defined expressions (depth <= 3 quick / 4 thorough) over the regenerated function '
                      'table and + - * / ** unary -, 1-3 variables, scalar / (3,) / (4,) / (2,2) shapes with scalar '
                      'broadcasting, y = e and y = sum(e), configurations default (coloring) / has_diag_partials / '
-                     'do_coloring=False / shape_by_conn; true-scalar shape () outputs and inputs mixed with arrays; every '
+                     'do_coloring=False / shape_by_conn; components with 2-3 statements sharing array inputs (several outputs per '
+                     'coloured column); true-scalar shape () outputs and inputs mixed with arrays; every '
                      'component is linearized along a history of 1-3 points, the first with inputs exactly 0.0/1.0/-1.0')
     v.assumptions = ['binary64 rounding of the implementation is not modelled (1e-9 relative, interval-checked)',
                      'points are generated away from kinks and poles (margins in exprgen.py); the smoothness of '
@@ -532,7 +569,7 @@ def main(tier):
             res = r.get('res')
             if res in (None, '__none__'):
                 continue
-            if not r.get('ok', True):
+            if not r.get('ok', True) or c.get('multi'):
                 continue        # already reported by the oracle on the real code (violation / known finding)
             if not offdiag_ok(c, res):
                 badc.add(i)
